@@ -418,6 +418,59 @@ static void do_par_indep(hctx* h, uint64_t fseed, int codec, long rows, int cols
     free(buf);
 }
 
+/* ------------------------------------------------------------------ op: par_bad */
+/* One column of the file is damaged (last byte of the LAST column's chunk in row group 0: its page fails the CRC test at
+ * once) while the other columns are intact.  The batch reader must report the failure for every num_threads exactly as it
+ * does single-threaded: a worker that finishes its own column successfully must not erase the failure another worker
+ * recorded.  Only the statuses and batch counts are compared (what a failing batch holds is unspecified). */
+#include "thrift/parquet_types.h"
+#include "core/arena.h"
+static void do_par_bad(hctx* h, uint64_t fseed, int codec, long rows, int cols, int mode, int nt, long bs, uint64_t sched) {
+    fprintf(h->out, "par_bad fseed=%llu codec=%d rows=%ld cols=%d mode=%d nt=%d bs=%ld sched=%llu",
+            (unsigned long long)fseed, codec, rows, cols, mode, nt, bs, (unsigned long long)sched);
+    h_call(h);
+    int mk = make_file(fseed, codec, rows, cols);
+    if (mk) { fprintf(h->out, " | mk=%d triv=1\n", mk); h->n_lines++; return; }
+    long flen = 0; uint8_t* fb = slurp(g_file.path, &flen);
+    long pos = -1;
+    if (fb && flen > 12) {
+        uint32_t fl = (uint32_t)fb[flen - 8] | ((uint32_t)fb[flen - 7] << 8) | ((uint32_t)fb[flen - 6] << 16) | ((uint32_t)fb[flen - 5] << 24);
+        carquet_arena_t arena; carquet_arena_init(&arena);
+        parquet_file_metadata_t md; carquet_error_t err = CARQUET_ERROR_INIT;
+        if ((long)fl + 12 <= flen && parquet_parse_file_metadata(fb + flen - 8 - fl, fl, &arena, &md, &err) == CARQUET_OK &&
+            md.num_row_groups > 0 && md.row_groups[0].num_columns > 0) {
+            parquet_column_metadata_t* cm = &md.row_groups[0].columns[md.row_groups[0].num_columns - 1].metadata;
+            pos = (long)(cm->data_page_offset + cm->total_compressed_size - 1);
+        }
+        carquet_arena_destroy(&arena);
+    }
+    if (pos < 4 || pos >= flen) { fprintf(h->out, " | mk=9 triv=1\n"); h->n_lines++; free(fb); return; }
+    fb[pos] ^= 0x5A;
+    char good[256]; snprintf(good, sizeof good, "%s", g_file.path);
+    char bad[300]; snprintf(bad, sizeof bad, "%s.bad", good);
+    FILE* f = fopen(bad, "wb"); if (f) { if (fwrite(fb, 1, (size_t)flen, f) != (size_t)flen) { /* judged below: open fails */ } fclose(f); }
+    snprintf(g_file.path, sizeof g_file.path, "%s", bad);
+    g_ref.valid = 0;
+    const uint8_t* buf = mode == 2 ? fb : NULL;
+    par_result ref; rec_end(); read_all(g_file.path, buf, flen, mode, 1, bs, cols, &ref);
+    par_result r;
+    rec_begin(1, sched != 0, sched);
+    {
+        indep_arg a; void* ap[1] = { &a }; pthread_barrier_t bar; pthread_barrier_init(&bar, NULL, 1);
+        a.buf = buf; a.blen = flen; a.mode = mode; a.nt = nt; a.bs = bs; a.cols = cols; a.bar = &bar;
+        int slot = nt <= 1 ? 0 : nt == 2 ? 1 : nt <= 4 ? 2 : nt <= 8 ? 3 : 4;
+        pool_run(&g_rpool[slot], 1, indep_main, ap);
+        pthread_barrier_destroy(&bar);
+        r = a.r;
+    }
+    rec_end();
+    unlink(bad); snprintf(g_file.path, sizeof g_file.path, "%s", good); g_ref.valid = 0;
+    fprintf(h->out, " | st=%d nb=%ld ref_st=%d ref_nb=%ld dmg=%ld p_failure_reported_as_single=%d\n",
+            r.st, r.nb, ref.st, ref.nb, pos, r.st == ref.st && r.nb == ref.nb && ref.st != CARQUET_ERROR_END_OF_DATA);
+    h->n_lines++;
+    free(fb);
+}
+
 /* ------------------------------------------------------------------ op: par_cold (child side) */
 
 /* kind 2: direct first use of the lazily initialised tables from n threads at once */
@@ -569,6 +622,10 @@ static void gen_par(hctx* h) {
                 do_par_indep(h, fseed, codec, rows, cols, mode, 4 + (int)h_below(h, 5), 1, bs, 1 + h_below(h, 1u << 30));
                 if (!pth_only && (h->thorough || mode == 0)) do_par_indep(h, fseed, codec, rows, cols, mode, 3, 2, bs, 1 + h_below(h, 1u << 30));
             }
+            /* a failing column among intact ones */
+            if (!pth_only) for (int ti = 1; ti < 5; ti++)
+                for (int rep = 0; rep < (h->thorough ? 6 : 3); rep++)
+                    do_par_bad(h, fseed, codec, rows, cols, (ci + rep) % 3, nts[ti], bs, 1 + h_below(h, 1u << 30));
             /* cold start, in a fresh process each */
             do_par_cold(h, fseed, codec, rows, cols, (int)h_below(h, 3), 8, 1, bs, 1 + h_below(h, 1u << 30), 0);
             if (!pth_only) do_par_cold(h, fseed, codec, rows, cols, ci % 3, 1, 8, bs, 1 + h_below(h, 1u << 30), 1);
@@ -594,6 +651,7 @@ static int replay_par(hctx* h, const h_line* l) {
     int codec = (int)h_ll(h_in(l, "codec")), cols = (int)h_ll(h_in(l, "cols")), mode = (int)h_ll(h_in(l, "mode")), nt = (int)h_ll(h_in(l, "nt"));
     long rows = (long)h_ll(h_in(l, "rows")), bs = (long)h_ll(h_in(l, "bs"));
     if (!strcmp(l->op, "par_read")) { do_par_read(h, fseed, codec, rows, cols, mode, nt, bs, sched); drop_file(); return 1; }
+    if (!strcmp(l->op, "par_bad")) { do_par_bad(h, fseed, codec, rows, cols, mode, nt, bs, sched); drop_file(); return 1; }
     if (!strcmp(l->op, "par_indep")) { do_par_indep(h, fseed, codec, rows, cols, mode, (int)h_ll(h_in(l, "n")), nt, bs, sched); drop_file(); return 1; }
     if (!strcmp(l->op, "par_cold")) { do_par_cold(h, fseed, codec, rows, cols, mode, (int)h_ll(h_in(l, "n")), nt, bs, sched, (int)h_ll(h_in(l, "kind"))); drop_file(); return 1; }
     return 0;
